@@ -238,7 +238,8 @@ func c06IncludedDefaultUnit(tier string) *Unit {
 
 func c06Units(tier string) []*Unit {
 	var us []*Unit
-	us = append(us, c06IncludeUnit(tier), c06IncludedDefaultUnit(tier), c06SpellingsUnit(), c06SameDepTwiceUnit())
+	us = append(us, c06IncludeUnit(tier), c06IncludedDefaultUnit(tier), c06SpellingsUnit(), c06SameDepTwiceUnit(), c06NonIdempotentDynVarUnit())
+	us = append(us, c06NestedChainUnits()...)
 	specs := c06Specs()
 	var names []string
 	for k := range specs {
@@ -319,6 +320,84 @@ func c06SameDepTwiceUnit() *Unit {
 		}
 		if x.Code != 0 || n != 4 {
 			out = append(out, vlab.V("C06", "always_count", "same_dep_twice", fmt.Sprintf("task s (default run mode) is referenced 4 times (twice in deps, two equal loop items) and executed %d times (status %d %s)", n, x.Code, firstN(x.ErrStr, 80))))
+		}
+		return out
+	}}
+}
+
+// Three nested run: once executions (a > b > c) and, below the innermost, two run: once
+// siblings of which the first calls the second: every task executes once and the invocation
+// succeeds (the record of "which shared executions am I nested in" of one sibling must not leak
+// into the other's).
+func c06NestedChainUnits() []*Unit {
+	var us []*Unit
+	pr := func(task string) string { return "      - printf '%s\\n' 'P|" + task + "|0|=|'\n" }
+	// depth = number of nested run: once executions above the two siblings (the slice that records
+	// them grows at 1, 2 and 4 entries)
+	for depth := 1; depth <= 5; depth++ {
+		tf := "version: '3'\nrun: once\ntasks:\n  root:\n    run: always\n    deps: [n1]\n    cmds:\n" + pr("root")
+		names := []string{"root", "d", "e"}
+		for i := 1; i <= depth; i++ {
+			deps := fmt.Sprintf("[n%d]", i+1)
+			if i == depth {
+				deps = "[d, e]"
+			}
+			tf += fmt.Sprintf("  n%d:\n    deps: %s\n    cmds:\n", i, deps) + pr(fmt.Sprintf("n%d", i))
+			names = append(names, fmt.Sprintf("n%d", i))
+		}
+		tf += "  d:\n    cmds:\n" + pr("d") + "      - task: e\n" + "  e:\n    cmds:\n" + pr("e")
+		sc := &vlab.Scenario{Name: fmt.Sprintf("once-nested-%d-deep-sibling-calls-sibling/cinf", depth), Files: map[string]string{"Taskfile.yml": tf}, Calls: []vlab.CallSpec{{Task: "root"}}}
+		us = append(us, &Unit{Name: sc.Name, Sc: sc, Bound: 1, Prune: true, Weight: 2, Check: func(x *vlab.Exec) []vlab.Violation {
+			out := generic("C06", x)
+			n := map[string]int{}
+			for _, e := range vlab.ParseTrace(x.Trace) {
+				if e.K == 'S' && e.Task != "" {
+					n[e.Task]++
+				}
+			}
+			for _, t := range names {
+				if n[t] > 1 {
+					out = append(out, vlab.V("C06", "once_ran_more_than_once", "nested_chain", fmt.Sprintf("run: once task %s executed %d times", t, n[t])))
+				}
+				if x.Code == 0 && n[t] == 0 {
+					out = append(out, vlab.V("C06", "once_never_ran", "nested_chain", fmt.Sprintf("invocation succeeded but run: once task %s never executed", t)))
+				}
+			}
+			if x.Code != 0 && !x.Res.Deadlock && !x.Res.Horizon {
+				out = append(out, vlab.V("C06", "spurious_failure", "nested_chain", fmt.Sprintf("no command fails, yet the invocation ended with status %d (%s)", x.Code, firstN(x.ErrStr, 120))))
+			}
+			return out
+		}})
+	}
+	return us
+}
+
+// A run: when_changed task with a dynamic variable whose command is not idempotent (a counter
+// kept in a file), referenced twice in parallel with identical call variables: the variable is
+// evaluated once per invocation, so there is one variable set and one execution.
+func c06NonIdempotentDynVarUnit() *Unit {
+	tf := "version: '3'\ntasks:\n  root:\n    deps: [a, b]\n    cmds:\n      - printf '%s\\n' 'P|root|0|@|'\n" +
+		"  a:\n    cmds:\n      - task: s\n        vars: {X: '1'}\n  b:\n    cmds:\n      - task: s\n        vars: {X: '1'}\n" +
+		"  s:\n    run: when_changed\n    vars:\n      N: {sh: 'n=$(cat counter 2>/dev/null || echo 0); echo $((n+1)) > counter; echo $n'}\n    cmds:\n      - printf '%s\\n' 'P|s|0|=|N={{.N}}'\n"
+	sc := &vlab.Scenario{Name: "when_changed-non-idempotent-dynamic-variable/cinf", Files: map[string]string{"Taskfile.yml": tf}, UsesFS: true, Calls: []vlab.CallSpec{{Task: "root"}}}
+	return &Unit{Name: sc.Name, Sc: sc, Bound: 1, Prune: false, Weight: 3, Check: func(x *vlab.Exec) []vlab.Violation {
+		out := generic("C06", x)
+		n := 0
+		var keys []string
+		for _, e := range vlab.ParseTrace(x.Trace) {
+			if e.K == 'S' && e.Task == "s" {
+				n++
+				keys = append(keys, e.Extra)
+			}
+		}
+		if n > 1 {
+			out = append(out, vlab.V("C06", "when_changed_repeated", "non_idempotent_dynvar", fmt.Sprintf("run: when_changed task s executed %d times (%v) for identical call variables: its dynamic variable was evaluated more than once", n, keys)))
+		}
+		if x.Code == 0 && n == 0 {
+			out = append(out, vlab.V("C06", "when_changed_missing_execution", "non_idempotent_dynvar", "s never executed"))
+		}
+		if x.Code != 0 && !x.Res.Deadlock && !x.Res.Horizon {
+			out = append(out, vlab.V("C06", "spurious_failure", "non_idempotent_dynvar", fmt.Sprintf("status %d (%s)", x.Code, firstN(x.ErrStr, 100))))
 		}
 		return out
 	}}
